@@ -1,4 +1,4 @@
-CONSTANTS MaxNodes = 3 MaxNodes2 = 3 Pool = 4 Layouts = {0} Wide = FALSE
+CONSTANTS MaxNodes = 2 MaxNodes2 = 2 Pool = 4 Layouts = {0} Wide = FALSE SMode = "wide3" LayE = 0 LayV = 2
 INIT InitS
 NEXT NextS
 INVARIANT EmitS
